@@ -37,8 +37,9 @@ template<class T> static void run(Rng& g, int n) {
 			std::string fn = std::string(ax == 0 ? "rotateX" : ax == 1 ? "rotateY" : "rotateZ"); std::string in = "v=(" + str((double)v.x) + "," + str((double)v.y) + "," + str((double)v.z) + ") angle=" + str((double)ang);
 			count(fn + "_3" + ty); for (int r = 0; r < 3; ++r) if (!(fabsl((LD)r3[r] - ex[r]) <= vt)) { fail(fn + "_3" + ty, "value", in, str((double)ex[r]), str((double)r3[r])); break; }
 			count(fn + "_4" + ty); for (int r = 0; r < 3; ++r) if (!(fabsl((LD)r4[r] - ex[r]) <= vt) || r4.w != v4.w) { fail(fn + "_4" + ty, "value", in, str((double)ex[r]), str((double)r4[r])); break; } }
-		  { glm::vec<3, T> nax = glm::normalize(axis); M4 E = rodr(ang, nax.x, nax.y, nax.z); glm::vec<3, T> r3 = glm::rotate(v, ang, nax); glm::vec<4, T> r4 = glm::rotate(v4, ang, nax); count("rotate_vector" + ty);
-			for (int r = 0; r < 3; ++r) { LD e = E.a[0][r] * v.x + E.a[1][r] * v.y + E.a[2][r] * v.z; if (!(fabsl((LD)r3[r] - e) <= vt * 4 && fabsl((LD)r4[r] - e) <= vt * 4)) { fail("rotate_vector" + ty, "value", "angle=" + str((double)ang), str((double)e), str((double)r3[r])); break; } } } }
+		  { glm::vec<3, T> nax = glm::normalize(axis); M4 E = rodr(ang, nax.x, nax.y, nax.z); glm::vec<3, T> uax = (it % 2) ? axis : nax;   /* a raw axis of any length: the rotation is about its direction, as for rotate(M, angle, axis) */
+			glm::vec<3, T> r3 = glm::rotate(v, ang, uax); glm::vec<4, T> r4 = glm::rotate(v4, ang, uax); count("rotate_vector" + ty);
+			for (int r = 0; r < 3; ++r) { LD e = E.a[0][r] * v.x + E.a[1][r] * v.y + E.a[2][r] * v.z; if (!(fabsl((LD)r3[r] - e) <= vt * 4 && fabsl((LD)r4[r] - e) <= vt * 4)) { fail("rotate_vector" + ty, (it % 2) ? "axis of any length" : "unit axis", "angle=" + str((double)ang) + " axis=(" + str((double)uax.x) + "," + str((double)uax.y) + "," + str((double)uax.z) + ")", str((double)e), str((double)r3[r]) + " / vec4: " + str((double)r4[r])); break; } } } }
 		{ M4 E = ident(); E.a[3][0] = v.x; E.a[3][1] = v.y; E.a[3][2] = v.z; count("translate" + ty); if (!(diff(glm::translate(M, v), mul(LM, E)) <= tol * 4)) fail("translate" + ty, "value", ms(M), "M*T(v)", "differs"); }
 		{ M4 E = ident(); E.a[0][0] = v.x; E.a[1][1] = v.y; E.a[2][2] = v.z; count("scale" + ty); if (!(diff(glm::scale(M, v), mul(LM, E)) <= tol * 4)) fail("scale" + ty, "value", ms(M), "M*S(v)", "differs"); if (!(diff(glm::scale_slow(M, v), mul(LM, E)) <= tol * 4)) fail("scale_slow" + ty, "value", ms(M), "M*S(v)", "differs"); }
 		{ M4 E = rodr(ang, axis.x, axis.y, axis.z); count("rotate" + ty); std::string in = "angle=" + str((double)ang) + " axis=(" + str((double)axis.x) + "," + str((double)axis.y) + "," + str((double)axis.z) + ")";
